@@ -119,6 +119,9 @@ class Dom:
                 self.add_equality(a, b)
             elif f[0] == 'is' and f[2] == 'Equal' and f[1][0] == 'ordcmp':
                 self.add_equality(f[1][1], f[1][2])
+        # equalities the order facts imply without stating them (a <= b, m == a, m >= b  ==>  a == b)
+        for a, b in p.implied_equalities():
+            if numericish(a) and numericish(b): self.add_equality(a, b)
 
     def add_equality(self, a, b):
         if not self._final:
